@@ -930,7 +930,12 @@ pub fn case_pairs(bytes: &[u8], ctx: &mut Ctx) -> CaseResult {
     let mut computed = None;
     if m == 15 {
         // L' has the (computed) empty first memo at index i; L gets a shape without hint
-        let i = (0..l2.len()).find(|i| matches!(&l2[*i], N::L(v) if v.len() == 4 && v[3] == N::L(vec![nil()]) && v[0] == a(&[51]))).expect("mutated CREATE_COIN");
+        let is_empty_first = |c: &N| matches!(c, N::L(v) if v.len() == 4 && v[3] == N::L(vec![nil()]) && v[0] == a(&[51]));
+        let i = (0..l2.len())
+            .find(|i| l1[*i] != l2[*i])
+            .or_else(|| (0..l2.len()).find(|i| is_empty_first(&l2[*i])))
+            .expect("mutated CREATE_COIN");
+        assert!(is_empty_first(&l2[i]));
         computed = Some(i);
         let N::L(v) = &mut l1[i] else { unreachable!() };
         v.truncate(3);
@@ -1035,7 +1040,15 @@ pub fn case_pairs(bytes: &[u8], ctx: &mut Ctx) -> CaseResult {
 pub fn case_eligibility(bytes: &[u8], ctx: &mut Ctx) -> CaseResult {
     let mut s = Src::new(bytes);
     let cost_conditions = s.chance(60);
-    let mut flags = FLAGS;
+    // without COMPUTE_FINGERPRINT the flag is observable even for spends whose
+    // conditions the fingerprint routine would refuse
+    let mut flags = MEMPOOL_MODE | ConsensusFlags::DONT_VALIDATE_SIGNATURE;
+    if s.chance(100) {
+        flags |= ConsensusFlags::COMPUTE_FINGERPRINT;
+        ctx.label("flags:compute-fingerprint");
+    } else {
+        ctx.label("flags:no-fingerprint");
+    }
     if cost_conditions {
         flags |= ConsensusFlags::COST_CONDITIONS;
     }
